@@ -1,23 +1,34 @@
 (* C13 - property theorems.
-   Code side: served / read_handshake / recorded / parse_hello / ja3_string (Model.v, as coded).
+   Code side: served / read_handshake / recorded / parse_hello / ja3_string (Model.v, as coded
+   in /repo after fixes fea246c and a08b807).
    Specification side: hello / encode_hello / fragment / spec_ja3 / spec_sni (Model.v).
-   C13_full is the property at full strength.  The unchanged code violates it in two
-   ways (GREASE kept in ciphers and curves; nothing recorded below TLS 1.0): both are
-   refuted with replayable witnesses, and the property is proved outside them. *)
+   C13_full is the property at full strength; it is proved (C13_full_holds). *)
 From HT Require Import Common.Bytes C13.Model C13.Check C13.Proofs.
 Open Scope N_scope.
 
 Definition C13_full : Prop := full_statement.
+
+(* every well-formed hello, whatever its legacy version, compression offer or
+   renegotiation_info, and however it is cut into handshake records: the events of the
+   connection carry the specification's JA3 string (its MD5) and the SNI sent *)
+Theorem C13_full_holds : C13_full.
+Proof. exact full_statement_holds. Qed.
+
+(* the same, unfolded *)
+Theorem C13_served_is_spec : forall h vers cuts,
+  wf_hello h = true -> vers < 4096 ->
+  Forall (fun r => blen (r_payload r) <= MAX_PLAINTEXT) (fragment vers cuts (encode_hello h)) ->
+  served (fragment vers cuts (encode_hello h)) = Ok (Some (spec_ja3 h, spec_sni h)).
+Proof. exact served_fragment_hello. Qed.
 
 (* the parser extracts exactly the fields of the hello that was encoded *)
 Theorem C13_parse_of_encode : forall h,
   wf_hello h = true -> parse_hello (encode_hello h) = Ok (info_of h).
 Proof. exact parse_encode. Qed.
 
-(* a negotiable hello of TLS 1.0 and up reaches the callback: the event carries the JA3
-   string of exactly that hello's fields and the SNI sent *)
+(* every well-formed hello reaches the callback: JA3 string of exactly its fields, SNI sent *)
 Theorem C13_recorded_and_sni : forall h,
-  wf_hello h = true -> negotiable h = true -> MIN_VERSION <= h_vers h ->
+  wf_hello h = true ->
   recorded (encode_hello h) = Ok (Some (ja3_string (info_of h), spec_sni h)).
 Proof. exact recorded_encode. Qed.
 
@@ -28,71 +39,19 @@ Theorem C13_fragmentation_transparent : forall h vers cuts,
   read_handshake (fragment vers cuts (encode_hello h)) [] 0 = Some (encode_hello h).
 Proof. exact read_fragment_hello. Qed.
 
-(* what the code computes, on every such hello and fragmentation: GREASE is left out of the
-   extension list only *)
-Theorem C13_served_string : forall h vers cuts,
-  wf_hello h = true -> negotiable h = true -> MIN_VERSION <= h_vers h -> vers < 4096 ->
-  Forall (fun r => blen (r_payload r) <= MAX_PLAINTEXT) (fragment vers cuts (encode_hello h)) ->
-  served (fragment vers cuts (encode_hello h)) = Ok (Some (ja3_exts_only h, spec_sni h)).
-Proof. exact served_fragment_hello. Qed.
+(* ClientHelloInfo.JA3 is the specification's function, for all hellos *)
+Theorem C13_ja3_is_spec : forall h, ja3_string (info_of h) = spec_ja3 h.
+Proof. exact ja3_is_spec. Qed.
 
-(* the property, outside the two findings *)
-Theorem C13_outside_findings : forall h vers cuts,
-  wf_hello h = true -> negotiable h = true -> MIN_VERSION <= h_vers h ->
-  existsb is_grease (h_ciphers h) = false -> existsb is_grease (spec_groups h) = false ->
-  frag_ok vers cuts (encode_hello h) ->
-  served (fragment vers cuts (encode_hello h)) = Ok (Some (spec_ja3 h, spec_sni h)).
-Proof. exact outside_findings. Qed.
-
-(* finding 1: GREASE among cipher suites / curves stays in the string *)
-Theorem C13_grease_refuted :
-  exists h, wf_hello h = true /\ negotiable h = true /\ MIN_VERSION <= h_vers h /\
-            frag_ok 769 [] (encode_hello h) /\
-            exists s, served (fragment 769 [] (encode_hello h)) = Ok (Some (s, spec_sni h)) /\
-                      s <> spec_ja3 h /\ s = ja3_exts_only h.
-Proof. exact full_refuted_grease. Qed.
-
-(* finding 2: a hello below TLS 1.0 is never recorded ... *)
-Theorem C13_old_version_unrecorded : forall h vers cuts,
-  wf_hello h = true -> h_vers h < MIN_VERSION -> frag_ok vers cuts (encode_hello h) ->
-  served (fragment vers cuts (encode_hello h)) = Ok None.
-Proof. exact old_version_unrecorded. Qed.
-
-(* ... and such hellos exist inside the property's quantifier (SSL 3.0, no GREASE at all) *)
-Theorem C13_old_version_refuted :
-  exists h, wf_hello h = true /\ negotiable h = true /\ 768 <= h_vers h /\
-            existsb is_grease (h_ciphers h) = false /\ existsb is_grease (spec_groups h) = false /\
-            frag_ok 768 [] (encode_hello h) /\
-            served (fragment 768 [] (encode_hello h)) = Ok None.
-Proof. exact full_refuted_old_version. Qed.
-
-Theorem C13_full_refuted : ~ C13_full.
-Proof. exact full_statement_refuted. Qed.
-
-(* the JA3 function itself: equal to the specification when ciphers and curves carry no GREASE *)
-Theorem C13_ja3_is_spec_outside : forall h,
-  existsb is_grease (h_ciphers h) = false -> existsb is_grease (spec_groups h) = false ->
-  ja3_string (info_of h) = spec_ja3 h.
-Proof. exact ja3_is_spec_outside. Qed.
-
-(* the specification's string does not depend on the GREASE values chosen *)
+(* the specification's string does not depend on the GREASE values chosen ... *)
 Theorem C13_spec_grease_invariant : forall h1 h2,
   same_modulo_grease h1 h2 = true -> spec_ja3 h1 = spec_ja3 h2.
 Proof. exact spec_grease_invariant. Qed.
 
-(* the code's string does not depend on GREASE among the extension types ... *)
-Theorem C13_code_ext_grease_invariant : forall h1 h2,
-  h_vers h1 = h_vers h2 -> h_ciphers h1 = h_ciphers h2 ->
-  same_mod_grease_list (map ext_type (exts_of h1)) (map ext_type (exts_of h2)) = true ->
-  spec_groups h1 = spec_groups h2 -> spec_points h1 = spec_points h2 ->
-  ja3_string (info_of h1) = ja3_string (info_of h2).
-Proof. exact code_ext_grease_invariant. Qed.
-
-(* ... but it does on GREASE among ciphers/curves *)
-Theorem C13_grease_invariance_refuted :
-  exists h1 h2, wf_hello h1 = true /\ wf_hello h2 = true /\ same_modulo_grease h1 h2 = true /\
-                ja3_string (info_of h1) <> ja3_string (info_of h2).
-Proof. exact grease_invariance_refuted. Qed.
+(* ... and neither does the string the code computes *)
+Theorem C13_code_grease_invariant : forall h1 h2,
+  same_modulo_grease h1 h2 = true -> ja3_string (info_of h1) = ja3_string (info_of h2).
+Proof. exact code_grease_invariant. Qed.
 
 (* the table in JA3() is exactly the RFC 8701 set *)
 Theorem C13_grease_table_is_rfc8701 : forall v, in_grease_table v = is_grease v.
@@ -101,24 +60,32 @@ Proof. exact grease_table_spec. Qed.
 (* the string determines the version and the four GREASE-free lists: two hellos get the same
    digest only if these agree, or through an MD5 collision *)
 Theorem C13_string_determines_fields : forall h1 h2,
-  spec_ja3 h1 = spec_ja3 h2 ->
+  ja3_string (info_of h1) = ja3_string (info_of h2) ->
   h_vers h1 = h_vers h2 /\ no_grease (h_ciphers h1) = no_grease (h_ciphers h2) /\
   no_grease (map ext_type (exts_of h1)) = no_grease (map ext_type (exts_of h2)) /\
   no_grease (spec_groups h1) = no_grease (spec_groups h2) /\ spec_points h1 = spec_points h2.
-Proof. exact spec_ja3_inj. Qed.
+Proof. exact code_ja3_inj. Qed.
+
+(* the string of the former defect (signature 1 of Check.v) can differ from the specification's
+   only on hellos with GREASE among ciphers or curves: the signature stays narrow *)
+Theorem C13_former_defect_class : forall h,
+  existsb is_grease (h_ciphers h) = false -> existsb is_grease (spec_groups h) = false ->
+  ja3_exts_only h = spec_ja3 h.
+Proof. exact exts_only_is_spec. Qed.
 
 (* the fuel given to the loops of the model always suffices *)
 Theorem C13_fuel_suffices : forall recs, served recs <> Fuel.
 Proof. exact served_fuel. Qed.
 
-(* non-vacuity: a 40-suite Chrome-like hello without GREASE in ciphers/curves but with a GREASE
-   extension, SNI, duplicate unknown extensions, cut into four records (one of them empty) *)
+(* non-vacuity 1: a Chrome-like hello with GREASE in ciphers, extensions and curves, an SNI list
+   with a non-host entry first, duplicate unknown extensions, no null compression offered and a
+   non-empty renegotiation_info, cut into four records (one of them empty) *)
 Example C13_nonvacuous :
-  let h := mkHello 771 w_random (repeat 9 32) [49195; 49199; 255; 22016] [1; 0]
-             (Some [ERaw 6682 []; ESni [(3, [120]); (0, w_name)]; ERaw 23 []; ERaw 65281 [0];
-                    EGroups [29; 23]; EPoints [0; 1]; ERaw 16 [0;3;2;104;50]; ERaw 4660 [1]; ERaw 4660 []]) in
+  let h := mkHello 771 w_random (repeat 9 32) [2570; 49195; 49199; 255; 22016] [1]
+             (Some [ERaw 6682 []; ESni [(3, [120]); (0, w_name)]; ERaw 23 []; ERaw 65281 [2; 7; 7];
+                    EGroups [10794; 29; 23]; EPoints [0; 1]; ERaw 16 [0;3;2;104;50]; ERaw 4660 [1]; ERaw 4660 []]) in
   let cuts := [1; 0; 70]%nat in
-  wf_hello h = true /\ negotiable h = true /\ frag_ok 768 cuts (encode_hello h) /\
+  wf_hello h = true /\ frag_ok 768 cuts (encode_hello h) /\
   length (fragment 768 cuts (encode_hello h)) = 4%nat /\
   served (fragment 768 cuts (encode_hello h)) = Ok (Some (spec_ja3 h, w_name)) /\
   spec_ja3 h = [55;55;49;44; 52;57;49;57;53;45;52;57;49;57;57;45;50;53;53;45;50;50;48;49;54;44;
@@ -129,19 +96,26 @@ Proof.
   repeat constructor; vm_compute; congruence.
 Qed.
 
+(* non-vacuity 2: the hellos of the two former defects now get the specification's fingerprint:
+   GREASE variants of one hello the same string, an SSL 3.0 hello its own *)
+Example C13_former_witnesses :
+  served (fragment 769 [] (encode_hello (w_hello 2570 6682 10794))) =
+  served (fragment 769 [] (encode_hello (w_hello 64250 31354 51914))) /\
+  served (fragment 769 [] (encode_hello (w_hello 2570 6682 10794))) =
+    Ok (Some ([55;55;49;44;52;57;49;57;53;44;48;45;49;48;45;49;49;44;50;57;44;48], w_name)) /\
+  served (fragment 768 [] (encode_hello (mkHello 768 w_random [] [10; 5] [0] None))) =
+    Ok (Some ([55;54;56;44;49;48;45;53;44;44;44], [])).
+Proof. repeat split; vm_compute; reflexivity. Qed.
+
+Print Assumptions C13_full_holds.
+Print Assumptions C13_served_is_spec.
 Print Assumptions C13_parse_of_encode.
 Print Assumptions C13_recorded_and_sni.
 Print Assumptions C13_fragmentation_transparent.
-Print Assumptions C13_served_string.
-Print Assumptions C13_outside_findings.
-Print Assumptions C13_grease_refuted.
-Print Assumptions C13_old_version_unrecorded.
-Print Assumptions C13_old_version_refuted.
-Print Assumptions C13_full_refuted.
-Print Assumptions C13_ja3_is_spec_outside.
+Print Assumptions C13_ja3_is_spec.
 Print Assumptions C13_spec_grease_invariant.
-Print Assumptions C13_code_ext_grease_invariant.
-Print Assumptions C13_grease_invariance_refuted.
+Print Assumptions C13_code_grease_invariant.
 Print Assumptions C13_grease_table_is_rfc8701.
 Print Assumptions C13_string_determines_fields.
+Print Assumptions C13_former_defect_class.
 Print Assumptions C13_fuel_suffices.
